@@ -5,6 +5,9 @@ sequences and every SC schedule: mutual exclusion, lock discipline, once-exactly
 no data race, balanced reference count, no use after release, distinct output blocks.
 Tie (a): shared-access table regenerated from rng.c / mt.c (xlate/x_c18_access.py) must equal the
 model's table (theorem table_matches, `decide`).
+Tie (a2): every mutable static-storage object of the compiled library (nm) is classified (modelled / unreachable from the
+grammar / never written / reached only with _mtx held or inside rngInit) — xlate/x_c18_statics.py + Bee2V/C18/Statics.lean
+(statics_classified by `decide`, protected_exclusive from the invariant).
 Tie (b): sequential refinement — single-thread operation sequences on the real functions vs the
 model (harness/c18.c vs drv_c18), observing return values, _ctr, _state, _once, _inited.
 Supporting evidence / search oracle: real threads under ThreadSanitizer (harness/c18_threads.c).
@@ -13,7 +16,7 @@ import os, re, subprocess
 import vcommon
 from vcommon import VERIF, REPO
 
-PROPS = ["Bee2V/C18/Props.lean"]
+PROPS = ["Bee2V/C18/Props.lean", "Bee2V/C18/Statics.lean"]
 
 
 def regen(ctx):
@@ -21,6 +24,11 @@ def regen(ctx):
     import x_c18_access as x
     importlib.reload(x)
     ctx.regen("Bee2V/Gen/C18.lean", x.generate())
+    # second tie: inventory of every mutable static-storage object of the compiled library (nm) with the
+    # grammar's call sites that reach it; classified and checked in Bee2V/C18/Statics.lean
+    import x_c18_statics as xs
+    importlib.reload(xs)
+    ctx.regen("Bee2V/Gen/C18Statics.lean", xs.generate(ctx.build_lib("rel")))
 
 
 def gen_seq(rng, maxlen):
@@ -80,7 +88,7 @@ def run(ctx):
         regen(ctx)
     except Exception as e:
         terr = "%s: %s" % (type(e).__name__, e)
-    proof_ok, log = (False, "translator: " + terr) if terr else ctx.prove(["Bee2V.C18.Props"], PROPS)
+    proof_ok, log = (False, "translator: " + terr) if terr else ctx.prove(["Bee2V.C18.Props", "Bee2V.C18.Statics"], PROPS)
     # tie (b): sequential refinement
     exe = ctx.cc("harness/c18.c", "asan")
     n = 150 if ctx.tier == "quick" else 1500
@@ -127,7 +135,9 @@ def run(ctx):
                      "brngCTRStepR is modelled as 'consume the next positions of the current key's CTR stream'; a new key (fresh entropy, rekey) starts a new stream "
                      "(distinctness of keys is a cryptographic assumption)",
                      "reference-counter overflow at 2^64 references and the exit-time destructor rngDestroy are not modelled",
-                     "xlate/x_c18_access.py extracts the access table faithfully (fail-closed; any change of an access shows as table_matches failing)"],
+                     "xlate/x_c18_access.py extracts the access table faithfully (fail-closed; any change of an access shows as table_matches failing)",
+                     "xlate/x_c18_statics.py: the inventory of mutable static objects is read from the compiled library with nm (exact); which functions mention an object and the "
+                     "call graph used for reachability are textual (direct calls by name; indirect calls are listed and must be the known entropy callback)"],
         rule="single-thread operation sequences inside the property's grammar (random, two length classes) compared op by op between rng.c and the Lean model; "
              "real-thread runs (8/16/3 threads) under ThreadSanitizer; distinct_nontrivial = distinct sequences")
 
